@@ -158,7 +158,7 @@ func cmdCheck(args []string) {
 		// known finding?
 		matched := false
 		for _, k := range known {
-			if k.Status == "open" && k.Property == *prop && k.Obligation == o.Name {
+			if k.Status == "open" && k.Property == *prop && k.Obligation == conjunctSuffix.ReplaceAllString(o.Name, "") {
 				fmt.Printf("KNOWN-FINDING: property=%s %s (%s)\n", *prop, k.What, o.Name)
 				knownHit = append(knownHit, o.Name)
 				matched = true
@@ -232,6 +232,17 @@ func runProperty(pc *PropConfig, tier string, timeout int, outDir string, overla
 					if t == pc.ID {
 						tagged = true
 						name = gs.Assert.Name
+					}
+				}
+			}
+		}
+		if !tagged && ev.In != "" && vc.eventFired[ev] == 0 {
+			// an untagged (ghost bookkeeping) event scoped to a function verified here must have fired as well
+			if fn, err := vc.resolveFunc(ev.In, vc.pkgOf(ev.Pkg)); err == nil {
+				for _, t := range targets {
+					if t == fn {
+						tagged = true
+						name = "ghost-update"
 					}
 				}
 			}
